@@ -36,6 +36,24 @@ def section_bytes(rng, fs, plain=False):
     return prefix + b''.join(lines)
 
 
+def with_layout(rng, P):
+    """realistic SETTINGS: MAX_FIELD_SECTION_SIZE first / middle / last among QPACK, datagram, connect and grease parameters"""
+    P = str(P)
+    if P == 'none':
+        return P
+    if P == '-':
+        return rng.choice(['-', '-@c'])
+    return P + rng.choice(['', '@f', '@m', '@l', '@m', '@l'])
+
+
+RX_FLAGS = {
+    ('srv', 'hdr'): ['chunks', 'second', 'chunks.second'],
+    ('srv', 'trl'): ['split', 'nodata', 'pend', 'chunks', 'second', 'split.pend', 'split.nodata', 'split.chunks.second'],
+    ('cli', 'hdr'): ['split', 'clone0', 'clone1', 'chunks', 'second', 'clone1.split', 'clone0.split.chunks'],
+    ('cli', 'trl'): ['split', 'nodata', 'pend', 'chunks', 'second', 'clone0.split', 'clone1.pend', 'split.nodata'],
+}
+
+
 def k_ok(role_kind, k):
     base = {'req': 167, 'resp': 42, 'trl': 0}[role_kind]
     return k == base or k >= base + 33
@@ -50,7 +68,7 @@ def expected_fields(role, tag, k):
 
 class P(Property):
     id = 'C10'
-    gen_modules = ['gen_codes', 'gen_static', 'gen_qstateless', 'gen_limits', 'gen_prefixint', 'gen_huffman', 'gen_huffman_enc', 'gen_prefixstring', 'gen_bitwin']
+    gen_modules = ['gen_codes', 'gen_static', 'gen_qstateless', 'gen_limits', 'gen_settings', 'gen_prefixint', 'gen_huffman', 'gen_huffman_enc', 'gen_prefixstring', 'gen_bitwin']
     properties_v = 'Properties/C10.v'
     model_targets = ['Model/SectionLimit.vo', 'Spec/RFC9204Static.vo', 'Spec/FieldSize.vo']
     extract_v = 'Extract/ExtractC10.v'
@@ -61,7 +79,7 @@ class P(Property):
             '1..4 regular fields) whose RFC 9114 size sweeps L-2..L+2 plus seeded others x request / response / request trailers / response '
             'trailers x peer SETTINGS carrying MAX_FIELD_SECTION_SIZE in {absent frame, absent parameter, 0, 41, 42, 43, 1000, 2^62-1} (decides '
             'whether the 431 answer is written); observed: delivered or header-too-big, error scope, the HEADERS payload written in reaction '
-            '(decoded by the reference decoder: must be :status 431), stop/reset codes, connection close. lim.tx: own limit (irrelevant, '
+            '(decoded by the reference decoder: must be :status 431), stop/reset codes, connection close. lim.rx variants: the stream split() and its receive half used, the request sent through a clone of SendRequest taken before / after the peer SETTINGS (small own limit with a generous peer and the reverse), trailers read without recv_data, recv_trailers first polled before the FIN, the HEADERS frame in three chunks, the second request stream; peer SETTINGS are realistic (QPACK, datagram, extended-connect and grease parameters with MAX_FIELD_SECTION_SIZE first / middle / last / absent); lim.adv: the MAX_FIELD_SECTION_SIZE each endpoint writes in its own SETTINGS equals the configured limit. lim.tx: own limit (irrelevant, '
             'varied) x peer limit P in {absent,0,1,41,42,43,75,167,199..202,1000,2500,2^32,2^62-1, seeded} x programs of send_request / '
             'send_response / send_trailers (sizes up to 2500: the extracted Huffman encoder model is quadratic) with sizes P-2..P+2 and seeded others, with the peer SETTINGS applied before, between or after '
             'the send attempts or never, and (lim.txw) while send_request is parked waiting for stream credit (0 bidirectional credit, SETTINGS processed, then credit granted); observed per call: Ok or HeaderTooBig and exactly what was written (decoded by the reference '
@@ -80,8 +98,17 @@ class P(Property):
         limits += [rng.randint(44, 3000) for _ in range(6 if quick else 60)]
         peers = ['none', '-', '0', '41', '42', '43', '1000', str(MAXL)]
 
-        def rx(role, kind, L, P, fs, plain=False):
-            out.append('lim.rx %s %s %d %s %s' % (role, kind, L, P, hx(section_bytes(rng, fs, plain))))
+        def rx(role, kind, L, P, fs, plain=False, flags=None):
+            sec = hx(section_bytes(rng, fs, plain))
+            out.append('lim.rx %s %s %d %s %s' % (role, kind, L, with_layout(rng, P), sec))
+            if flags is None and rng.random() < 0.5:
+                flags = rng.choice(RX_FLAGS[(role, kind)])
+            if flags:
+                if 'second' in flags and role == 'srv' and L < 167:
+                    flags = flags.replace('.second', '').replace('second', 'chunks')
+                if 'second' in flags and role == 'cli' and L < 42:
+                    flags = flags.replace('.second', '').replace('second', 'chunks')
+                out.append('lim.rx %s %s.%s %d %s %s' % (role, kind, flags, L, with_layout(rng, P), sec))
 
         for L in limits:
             for role, kind, base_fs in (('srv', 'hdr', REQ), ('cli', 'hdr', RESP), ('srv', 'trl', []), ('cli', 'trl', [])):
@@ -107,6 +134,32 @@ class P(Property):
                     for P in ps:
                         # big sections with raw strings only: the extracted Huffman model is quadratic in the string length
                         rx(role, kind, L, P, fs, plain=(t > 3000 or rng.random() < 0.3))
+        # every handle variant at the boundary of a middle-sized limit: split halves, cloned SendRequest (before / after the
+        # peer's SETTINGS), trailers without recv_data, recv_trailers polled before the FIN, chunked HEADERS, second stream
+        for L in (200, 1000):
+            for (role, kind), flagsets in RX_FLAGS.items():
+                base_fs = REQ if (role, kind) == ('srv', 'hdr') else RESP if (role, kind) == ('cli', 'hdr') else []
+                for fl in flagsets:
+                    for t in (L - 1, L, L + 1, size_of(base_fs) if base_fs else 34):
+                        ex = extras_for(rng, t - size_of(base_fs))
+                        if ex is None:
+                            continue
+                        P = rng.choice(peers) if role == 'srv' else rng.choice(['none', '-', '1000', str(MAXL)])
+                        rx(role, kind, L, P, base_fs + ex, flags=fl)
+        # the own limit must not be confused with the peer's: small own / generous peer and the reverse, through every client handle
+        for fl in ('', 'clone0', 'clone1', 'split', 'clone0.split', 'clone1.split'):
+            for L, P, t in ((100, '1000', 200), (100, str(MAXL), 101), (100, '-', 100), (100, 'none', 200), (1000, '170', 200),
+                            (1000, '167', 1000), (1000, '170', 1001), (42, '1000', 42), (41, '1000', 42)):
+                ex = extras_for(rng, t - 42, single=True)
+                kind = 'hdr' + ('.' + fl if fl else '')
+                out.append('lim.rx cli %s %d %s %s' % (kind, L, with_layout(rng, P), hx(section_bytes(rng, RESP + ex, True))))
+                if t - 42 >= 33 or t == 42:
+                    out.append('lim.rx cli trl%s %d %s %s' % ('.' + fl if fl else '', max(L, 42), with_layout(rng, P),
+                                                                hx(section_bytes(rng, extras_for(rng, max(t - 42, 0) or 0) or [], True))))
+        # what each endpoint tells its peer: the advertised MAX_FIELD_SECTION_SIZE is the configured one
+        for L in limits:
+            out.append('lim.adv srv %d' % L)
+            out.append('lim.adv cli %d' % L)
         # sections with static-table hits of every shape, sized around small limits
         for _ in range(40 if quick else 2000):
             fs = RESP + [rng.choice(STATIC) for _ in range(rng.randint(0, 4)) if True]
@@ -130,7 +183,9 @@ class P(Property):
                 hs = sorted({k for k in near + [167 if role == 'cli' else 42, rng.randint(200, 2500)] if k >= 0 and k_ok(hk, k)})
                 ts = sorted({k for k in near + [0, 33, rng.randint(33, 2500)] if k >= 0 and k_ok('trl', k)})
                 owns = [rng.choice([0, 100, 1000, MAXL])] if role == 'cli' else [rng.choice([167, 1000, MAXL])]
+                Pn = P
                 for own in owns:
+                    P = with_layout(rng, Pn)
                     for k in hs:
                         out.append('lim.tx %s %d %s H%d' % (role, own, P, k))                # default limit in force
                         out.append('lim.tx %s %d %s S,H%d' % (role, own, P, k))              # peer limit in force
@@ -158,7 +213,13 @@ class P(Property):
             pv = MAXL if P == '-' else P
             ks = {167, 200, rng.randint(200, 2500)} | ({pv + d for d in (-2, -1, 0, 1, 2)} if pv <= 2500 else set())
             for k in sorted(k for k in ks if k >= 0 and k_ok('req', k)):
-                out.append('lim.txw cli %d %s %d' % (rng.choice([0, 100, MAXL]), P, k))
+                out.append('lim.txw cli %d %s %d' % (rng.choice([0, 100, MAXL]), with_layout(rng, P), k))
+        # peer limits between 2500 and 2^32: the varint boundary of the frame length and a large one (a few cases only: the
+        # extracted Huffman encoder model is quadratic in the string length)
+        for Pb in (16383, 16384, 40000):
+            for d in (-1, 0, 1):
+                out.append('lim.tx cli 0 %s S,H%d' % (with_layout(rng, Pb), Pb + d))
+                out.append('lim.tx srv 1000 %s S,H%d,T%d' % (with_layout(rng, Pb), Pb + d, Pb - d))
         return out
 
     # ------------------------------------------------------------------ comparison
@@ -226,7 +287,7 @@ class P(Property):
         w = case.split()
         if w[0] == 'lim.rx':
             return case if len(w[5]) > 4 else None
-        if w[0] == 'lim.txw':
+        if w[0] in ('lim.txw', 'lim.adv'):
             return case
         return case if ('H' in w[4] or 'T' in w[4]) else None
 
